@@ -16,7 +16,7 @@ OVerbatim == Len(O) >= 2 /\ OContent = blk.lines
 OVerbatimK == Len(O) >= 2 /\ OContent = DropTrailingBlank(blk.lines)
 OBlank == \A j \in 1..Len(O) : O[j].k = "blank" => (O[j].p = <<>> \/ O[j].p[Len(O[j].p)] \notin {"I", "F"})
 OFence == Len(O) >= 2 /\ O[1].k = "fence" /\ O[Len(O)].k = "fence" /\ O[1].c = blk.fc /\ O[1].n >= blk.fl /\ O[Len(O)].n = O[1].n
-          /\ O[1].info = blk.info /\ \A j \in 2..(Len(O) - 1) : Run(O[j].k, blk.fc) < O[1].n
+          /\ O[1].info = blk.info /\ \A j \in 2..(Len(O) - 1) : RunClose(O[j].k, blk.fc) < O[1].n
 OPrefix == Len(O) >= 1 /\ O[1].p = PathDef(path).pre /\ \A j \in 2..Len(O) : O[j].k # "blank" => O[j].p = PathDef(path).sec
 TraceReport == Done => PrintT(ToJson(<<"R", TR.id, outl = O, OVerbatim, OVerbatimK, OBlank, OFence, OPrefix, TR.lit_same>>))
 =============================================================================
